@@ -14,3 +14,12 @@ import (
 func VerifC12NewService(conf *config.Configuration, cch cache.Cache, log zerolog.Logger, exec rule.Executor) *http.Server {
 	return newService(conf, cch, log, exec)
 }
+
+// VerifC12NewContext creates the request context of the decision service.
+func VerifC12NewContext(rw http.ResponseWriter, req *http.Request) interface {
+	AddHeaderForUpstream(name, value string)
+	SetPipelineError(err error)
+	Finalize(backend rule.Backend) error
+} {
+	return newContextFactory(http.StatusOK).Create(rw, req)
+}
